@@ -30,6 +30,23 @@ CLAIMED = {
         note=COMMON_NOTE + "The AEAD is a parameter (section hypothesis: correctness and tag length), real ChaCha20-Poly1305 and protobuf serialisation are trusted. Known finding F9 (payload > 65515 bytes) is listed in known_findings.json.",
         tech="machine-checked proof in Coq (round-trip against an independent spec decoder, induction over write histories) + model/implementation correspondence",
         ref="DESIGN.md §5 C02"),
+    "C03": dict(
+        text="Coq theorems C03_segmentation_independent (for EVERY byte stream, honest or not, and EVERY chunking: same events in order, same final protocol state and status as one call), "
+             "C03_frames_in_order, C03_honest_session (hello with optional NUL-terminated name, accepted handshake reply, messages under nonces 0,1,2,...: readiness exactly once and before every delivery, "
+             "deliveries = the messages in order; a differing announced name: BadName carrying the received name for waiter and connection, nothing delivered) about Model/NoiseFrame.v (mirror of noise.py + base.py). "
+             "Tied by running the real helper (real X25519/ChaChaPoly/SHA-256) against an independent responder over fresh handshakes, names, expected-name settings, message lists and chunkings; per call the observations "
+             "must equal an oracle computed from frame boundaries, and the extracted model with a symbolic ideal AEAD must produce the same lines for the same cuts.",
+        note=COMMON_NOTE + "PARTIAL in one named respect: the AEAD, the Noise handshake object and UTF-8 decoding are parameters of the model; theorems assume decrypt n (enc n p) = Some p as a hypothesis; that the real crypto is a conformant instance is shown by the differential runs (a test).",
+        tech="machine-checked proof in Coq (loop-extension lemma by induction on fuel, induction over chunk lists and frame lists) + model/implementation correspondence against an independent Noise responder; partial (ideal AEAD hypothesis)",
+        ref="DESIGN.md §5 C03"),
+    "C04": dict(
+        text="Coq theorems C04_prefix_only (data phase, EVERY sequence of adversarial frames: deliveries are a prefix of what the device sent under consecutive nonces, given the ideal-AEAD hypothesis 'what decrypts under nonce n is what the device sent under n'), "
+             "C04_bad_data_frame + C04_raise_kills_transport + C04_dead_transport_ignores (first unauthentic frame: InvalidTag -> invalid-key error, transport dead, nothing later looked at), the seven handshake-phase classifications "
+             "(closed, same specific error for connection and readiness waiter, never ready, nothing delivered) and C04_psk_gate. Tied by a corruption sweep with real crypto: every byte of every frame flipped, every truncation, duplicate, drop, swap, "
+             "hello/handshake deviations, other key, both framing mismatches, key strings, x three chunkings (exhaustive in thorough: 4600 sessions), judged by an oracle and compared with the extracted model.",
+        note=COMMON_NOTE + "PARTIAL in one named respect: unforgeability is a hypothesis of the theorems (real ChaCha20-Poly1305 meets it only computationally). Runs whose corruption hits a length field are judged by the oracle only (ciphertext byte values are not represented in the symbolic stream).",
+        tech="machine-checked proof in Coq (induction over adversarial frame lists under an ideal-AEAD hypothesis; case analysis of the handshake handlers) + exhaustive single-corruption sweep against the real helper; partial (ideal AEAD hypothesis)",
+        ref="DESIGN.md §5 C04"),
     "C05": dict(
         text="Coq theorems C05_state_forward (for every reachable state and every label: the visible state moves only INIT->SOCK->HS->CONNECTED or to CLOSED, never leaves CLOSED, "
              "is_connected/handshake_complete are functions of the state), C05_runs_monotone (all runs), C05_start_guard/finish_guard/start_accepted_once (single use) about Model/Conn.v, "
@@ -92,6 +109,13 @@ CLAIMED = {
         note=COMMON_NOTE + "Translators (Python ast, own .proto parser, descriptor walker) are trusted but cross-validated on every run against the live objects and a dynamic API sweep in SimNet.",
         tech="machine-checked proof in Coq by reflection over translator-generated tables + dynamic translator validation",
         ref="DESIGN.md §5 C13"),
+    "C19": dict(
+        text="Coq theorems C19_start_accepted_iff_free, C19_refused_start_is_noop, C19_accepted_start_is_fresh, C19_command_refused / C19_request_refused (no live authenticated session: connection error, nothing written, nothing changed), "
+             "C19_endings_clear / C19_forced_disconnect_clears (stop hook, failed connect phase, returned disconnect() clear the client's reference in the same callback) about Model/Client.v (APIClient bookkeeping over a sequence of Model/Conn.v connections). "
+             "PARTIAL: the run-level corollary 'nothing alive and nothing in progress => the client holds no connection' is evaluated on the implementation at every quiescent point, by start/command probes at every stage and after the story, and by trace validation of the composite model - not yet proved about runs.",
+        note=CONN_NOTE + "Stories use the client sequentially (a new attempt is not started while a coroutine of the previous connection object has not returned); finish_connection is only called in state SOCKET_OPENED. Behaviour outside that (DESIGN.md F12/F13) is recorded, not modelled.",
+        tech="machine-checked proof in Coq (case analysis of the client steps over the Conn model) + client-level trace validation over several consecutive sessions; partial (never-wedges is tested at run level, not proved)",
+        ref="DESIGN.md §5 C19"),
 }
 
 NOT_YET = "not yet claimed: model and proof under construction (see DESIGN.md §8 implementation order)"
